@@ -37,15 +37,17 @@ TRUSTED = [
 ]
 ASSUMPTIONS = [
     'float comparisons use absolute tolerance 1e-9 and only on inputs whose every branch test |x| <> EQ_TOLERANCE is decided '
-    'identically by the Model for tolerances 1e-5 .. 1e-11 (others are discarded and counted)',
+    'identically by the Model for tolerances 1e-5, 1e-8 and 1e-908 (i.e. every tested entry is exactly zero or >= 1e-5: the '
+    'exact-regime hypothesis of the theorems; other inputs are discarded and counted)',
 ]
 OPEN_STATEMENTS = [
     'givens_reconstruct / square_reconstruct (V Q U^dagger = (D|0) for all isometries, as a Lean theorem about the numeric '
-    'Model): not proved as a whole; covered by the reconstruction oracle.  Proved instead: the complete schedule '
-    'characterisation (adjacency, disjointness, depth, coverage, order = zero-persistence at the index level), the 2x2 element '
-    'identities, that every elementary column step zeroes its target entry and keeps pairs of zeros (numeric level), and the '
-    'layer structure of everything the three numeric decompositions emit.  Missing for the full theorem: the induction over '
-    'the sweep combining these, and the orthonormality argument for the lower-left part.',
+    'Model): not proved as a whole; covered by the reconstruction oracle.  Proved: the complete schedule characterisation, '
+    'the 2x2 element identities, and that in the exact regime the sweeps of givens_decomposition_square and of the second '
+    'stage of givens_decomposition annihilate the whole strict upper part (square_sweep_annihilates_upper_triangle, '
+    'givens_sweep_annihilates_upper_part).  Missing for the full theorem: (a) the left-unitary stage zeroes the corner '
+    '(hypothesis of the second theorem), (b) upper-triangular + orthonormal rows => diagonal of unit modulus, '
+    '(c) the bookkeeping M\' = V Q G_1^dagger .. G_k^dagger (rotateCols is right multiplication by G^dagger).',
     'gaussian_reconstruct (V W U^dagger = (0|D)) : not proved; FALSE on the real code when the left N x N block of W is '
     'singular (known finding F11, kernel-checked counterexample on the Model); open for a non-singular left block.',
     'givens_matrix_elements_sound is stated in the exact regime (entries / imaginary parts below EQ_TOLERANCE are exactly 0); '
@@ -397,11 +399,14 @@ def impl_summary(val):
     return conv(val)
 
 
-SCALES = [[1, 1], [1000, 1], [1, 1000]]
+# tolerance x1, x1000 and x10^-900 (the last one only treats exact zeros as zero: nonzero entries of the generated
+# rational matrices are far larger), so identical answers mean: every tested entry is exactly 0 or >= 1000 tol,
+# which is the exact-regime hypothesis (StepExact / SweepExact) of the Lean theorems
+SCALES = [[1, 1], [1000, 1], [1, 10 ** 900]]
 
 
 def model_runs(ctx, reqs):
-    """run every request with the live tolerance and with the tolerance scaled by 1000 and 1/1000;
+    """run every request with the live tolerance and with the tolerance scaled by 1000 and 1e-900;
     -> list of (answer, decided_with_margin)"""
     batch = []
     for r in reqs:
